@@ -127,7 +127,9 @@ def op_strategy(kind: str, cfg: dict):
                                       "noref": st.booleans()})
     if kind == "remove_many":
         return st.fixed_dictionaries({"op": st.just("remove_many"), "parent": idx,
-                                      "who": st.lists(idx, min_size=2, max_size=3)})
+                                      "who": st.lists(idx, min_size=2, max_size=3),
+                                      # a group is emptied with its own child list: group.remove_children(group.children)
+                                      "own_list": st.integers(0, 3).map(lambda v: v == 0)})
     if kind == "pg_add":
         return st.fixed_dictionaries({"op": st.just("pg_add"), "obj": idx,
                                       "data": st.lists(idx, min_size=1, max_size=3),
@@ -419,7 +421,14 @@ class TreeRun:
         if live["dups"]:
             self.fail("C01", "duplicated-in-tree", opkind, wd.nodes.get(live["dups"][0], {}).get("cls", "?"), where,
                       f"entity reached twice walking the tree: {live['dups']}")
-        diffs = diff_nodes(wd.nodes, live["nodes"])
+        for uid, node in live["nodes"].items():
+            if "pg_children" in node and isinstance(node.get("pgs"), dict) and node["pg_children"] != sorted(node["pgs"]):
+                for prop in ("C01", "C05"):
+                    self.fail(prop, "child-list-vs-property-groups", opkind, node.get("cls", "?"), where,
+                              f"{node.get('cls')} {uid}: children hold property groups {node['pg_children']}, "
+                              f"property_groups gives {sorted(node['pgs'])}")
+                break
+        diffs = diff_nodes(wd.nodes, live["nodes"], ignore=("pg_children",))
         for uid, field, a, b in diffs:
             cls = (wd.nodes.get(uid) or live["nodes"].get(uid) or {}).get("cls", "?")
             if field == "<missing-in-second>":
@@ -1639,7 +1648,15 @@ class TreeRun:
         if len(chosen) < 2:
             return False
         parent = wd.entity(parent_uid)
-        ents = [wd.entity(c) for c in chosen]
+        own_list = bool(op.get("own_list")) and wd.kind.get(parent_uid) == "group" and \
+            wd.nodes[parent_uid]["cls"] != "DrillholeGroup" and len(kids) == len(wd.nodes[parent_uid]["children"]) and \
+            all(wd.nodes[g].get("allow_delete") in (True, 1) for c in kids for g in [c] + wd.descendants(c))
+        if own_list:
+            chosen = list(kids)
+            ents = parent.children
+            self.res.label("remove_many:own-child-list")
+        else:
+            ents = [wd.entity(c) for c in chosen]
         kinds = {wd.kind[c] for c in chosen}
         self.parents.add(parent_uid)
         self.call("several", parent.remove_children, ents)
